@@ -316,6 +316,14 @@ pub fn gen_bilinear_scen(rng: &mut Rng, thorough: bool, ext: bool, outside: bool
     }
     queries.push((xv[0], yv[0]));
     queries.push((xv[nx - 1], yv[ny - 1]));
+    // "diagonal" queries: x numerically equal to a y node (and y on that grid line), y equal to an x node -- a
+    // mixed-up coordinate in a node shortcut shows here
+    let (xlo, xhi, ylo, yhi) = (xv[0], xv[nx - 1], yv[0], yv[ny - 1]);
+    for &v in yv.iter().chain(xv.iter()) {
+        if (outside || (v >= xlo && v <= xhi && v >= ylo && v <= yhi)) && queries.len() < 64 {
+            queries.push((v, v));
+        }
+    }
     let class = format!("{:?}/{:?}", if xax.is_none() { "default".to_string() } else { format!("{:?}", spx) },
                         if yax.is_none() { "default".to_string() } else { format!("{:?}", spy) });
     (Scen2 { ext, xax, yax, cells, trail, queries }, f32safe, class)
